@@ -62,6 +62,23 @@ reg("C06", "exploration", "boundary monitor on every impute call with unique-id 
     "or any (product) stored observation, n predictions equal to the pristine model, x/subset/storage unchanged by deep snapshot.",
     "Re-iterable subsets; unique feature values make sources unambiguous.", "DESIGN.md 3/C06")
 
+reg("C13", "exploration", "fresh-instance differential monitor over interleaved call histories; recording subclass of the metric",
+    "Every accepted river.metrics class is driven through 1-3 loss wrappers and an explainer sharing one metric object; after every call the value "
+    "is compared with a fresh metric on that single pair and the shared metric's reported value with its initial value; what reached the metric (scalar vs dict) is recorded.",
+    "Metric touched only through wrappers; 'fresh' = default-constructed instance of the same class.", "DESIGN.md 3/C13")
+reg("C14", "exploration", "reference canonicaliser monitor over shape/dtype/key-order product; dispatch sweep over installed estimators",
+    "Wrapper outputs for every output shape x dtype x batch size are compared with a canonicaliser written from the statement, key-order permutations "
+    "and the array reaching the model are recorded, and validate_model_function is swept over every constructible sklearn / river class and torch modules.",
+    "Batch outputs indexable by row; real-model agreement judged against the model's own one-row outputs.", "DESIGN.md 3/C14")
+reg("C15", "exploration", "offline contract checker over callback event logs across the configuration product",
+    "Construction from required arguments, plain positional loss, name types incl. mixed, evaluation budget, seen_samples, no mutation, storage update "
+    "exactly once and last (or not at all), never-own-background and return value are checked on every call of generated histories.",
+    "Names pairwise distinct; hash-equal NumPy keys accepted.", "DESIGN.md 3/C15")
+reg("C16", "exploration", "value-type sweep with driven importance dictionaries + reachable-state monitor; NumPy FP-exception recorder",
+    "Raw importances are driven to chosen dictionaries (alpha=1 + scripted loss) in six numeric types and the normalised views judged against exact "
+    "quotients; variances and confidence bounds are checked against the formula on every state reached by PFI/SAGE streams.",
+    "Non-empty dictionaries; quotients beyond float range excluded.", "DESIGN.md 3/C16")
+
 def main():
     props = [json.loads(l) for l in open(os.path.join(HERE, "properties.jsonl"))]
     checks, na = [], []
